@@ -325,7 +325,76 @@ func monC05(c *child.Ctx, replay json.RawMessage) {
 	for i := 0; i < n; i++ {
 		t := 1005 + i%2
 		b := gen.RandBase(r, t)
+		if i%16 == 5 {
+			// payloads with many trailing bytes, up to the 1023-byte limit, in particular
+			// lengths just above 256, 512 and 768
+			full := 19 + 2*(t-1005)
+			var extra int
+			switch r.Intn(4) {
+			case 0:
+				extra = 256*r.Range(1, 3) + r.Intn(24) - full
+			case 1:
+				extra = 1023 - full
+			default:
+				extra = r.Range(9, 1023-full)
+			}
+			b.Trailing = r.Bytes(extra)
+			if r.Chance(1, 2) {
+				b.Trailing = make([]byte, extra)
+			}
+		}
 		run(baseCase{B: b, TypeField: t, Cut: -1}, b.X != 0 && b.Y != 0 && b.Z != 0)
+	}
+	// decoding successive frames from ONE reused buffer: each result must be that of
+	// the bytes the buffer holds at the time
+	nr := c.Share(c.Pick(20000, 400000))
+	for _, t := range []int{1005, 1006} {
+		buf := make([]byte, 0, 64)
+		for i := 0; i < nr/2; i++ {
+			b := gen.RandBase(r, t)
+			b.Trailing = nil
+			tf := t
+			if i%7 == 3 {
+				tf = []int{1005, 1006, 1007, 1004}[r.Intn(4)] // sometimes a frame the decoder must reject
+			}
+			frame := ref.Frame(ref.EncodeBase(b, tf))
+			buf = append(buf[:0], frame...)
+			k := baseCase{B: b, TypeField: tf, Cut: -1}
+			cj, _ := json.Marshal(k)
+			if i%256 == 0 {
+				c.Begin(cj)
+			}
+			var f *baseFields
+			var err error
+			panicked := ""
+			func() {
+				defer func() {
+					if rr := recover(); rr != nil {
+						panicked = fmt.Sprint(rr)
+					}
+				}()
+				f, _, err = decodeBaseDirect(t, buf, slog.LevelInfo)
+			}()
+			switch {
+			case panicked != "":
+				c.Violate("panic", "decoder panicked on a frame in a reused buffer: "+panicked, cj)
+			case tf != t:
+				if err == nil {
+					c.Violate("bad-message-accepted", fmt.Sprintf("type %d decoder accepted a frame with type field %d (read from a buffer that held a valid frame before)", t, tf), cj)
+				}
+			case err != nil:
+				c.Violate("well-formed-rejected", fmt.Sprintf("type %d decoder rejected a well-formed frame in a reused buffer: %v", t, err), cj)
+			default:
+				if why := checkBaseFields(b, f); why != "" {
+					c.Violate("field-mismatch", fmt.Sprintf("type %d decoder, frame read from a reused buffer (stale result of the previous frame?): %s", t, why), cj)
+				}
+			}
+			c.Count("reused_buffer_decodes", 1)
+			c.EvalN(1)
+			if c.NViolations() > 0 {
+				break
+			}
+		}
 	}
 }
 
